@@ -88,6 +88,7 @@ pub fn exec(op: &str, a: &Value) -> Option<Value> {
         "MiscX.farProviderQuery" => run(|| FS.with(|p| { use temporal_rs::provider::TimeZoneProvider;
             let sec = 10i128.pow(js::i(a, "k") as u32) * if a["neg"].as_bool().unwrap() { -1 } else { 1 };
             p.get_named_tz_offset_nanoseconds(js::s(a, "zone"), sec * 1_000_000_000).map(|_| ()) }), |_| json!(null)),
+        "MiscX.instantTextNoData" => run(|| Instant::try_new(num(&a["ns"]))?.to_ixdtf_string_with_provider(None, ToStringRoundingOptions::default(), &temporal_rs::provider::NeverProvider).map(|_| ()), |_| json!(null)),
         // year given as a bare `year` (era = false) or as the era year of the calendar's first listed era where it has one
         "MiscX.partialYear" => run(|| { let cal = Calendar::from_str(js::s(a, "cal"))?; let y = js::i(a, "year") as i32;
             let mut p = temporal_rs::partial::PartialDate::new().with_month(Some(1)).with_day(Some(1)).with_calendar(cal.clone());
